@@ -87,6 +87,43 @@ pub fn matrix<T: Display + Binary + Octal + LowerHex + UpperHex>(v: &T, w: usize
     out
 }
 
+/// A `fmt::Write` sink that accepts at most `cap` bytes and then fails.
+struct Bounded {
+    buf: String,
+    cap: usize,
+}
+impl std::fmt::Write for Bounded {
+    fn write_str(&mut self, s: &str) -> std::fmt::Result {
+        if self.buf.len() + s.len() > self.cap {
+            return Err(std::fmt::Error);
+        }
+        self.buf.push_str(s);
+        Ok(())
+    }
+}
+
+/// Format into sinks that run out of room, then format normally again (same thread): what the
+/// sink received, whether the call failed, and the next ordinary output.
+fn failing_sinks<T: Display + Binary + Octal + LowerHex + UpperHex>(v: &T, digits: usize) -> Vec<(bool, String, String)> {
+    use std::fmt::Write;
+    let mut out = Vec::new();
+    for cap in [0usize, 1, digits.saturating_sub(1), digits + 1] {
+        let mut s = Bounded { buf: String::new(), cap };
+        let r = write!(s, "{:b}", v).is_err();
+        out.push((r, s.buf, format!("{:b}", v)));
+        let mut s = Bounded { buf: String::new(), cap };
+        let r = write!(s, "{:#x}", v).is_err();
+        out.push((r, s.buf, format!("{:x}", v)));
+        let mut s = Bounded { buf: String::new(), cap };
+        let r = write!(s, "{:o}", v).is_err();
+        out.push((r, s.buf, format!("{:#o}", v)));
+        let mut s = Bounded { buf: String::new(), cap };
+        let r = write!(s, "{:+}", v).is_err();
+        out.push((r, s.buf, format!("{:X}", v)));
+    }
+    out
+}
+
 fn small<T: Display + Binary + Octal + LowerHex + UpperHex>(v: &T) -> Vec<String> {
     vec![format!("{:b}", v), format!("{:o}", v), format!("{:x}", v), format!("{:X}", v), format!("{:#x}", v), format!("{:#010b}", v)]
 }
@@ -126,7 +163,7 @@ impl Property for C14 {
             "values 0, 2^k, 2^k-1 for every k<=min(capacity,320) at full length on all 20 types".into(),
             "every length 0..=capacity of every fixed type with the values 2^len-1 and a dense pattern".into(),
             "decimal/binary/octal/hex of 2^k-1 and 2^(k-1) as k-bit Bvd and Bv for every k in 401..=1300".into(),
-            "binary/octal/hex of 2^k-1, 2^(k-1) and a dense value as k-bit Bvd and Bv for k = 1301..8300 step 13 and within 3 of 2048, 4096, 4160, 4224, 8192".into(),
+            "binary/octal/hex of 2^k-1, 2^(k-1) and a dense value as k-bit Bvd and Bv for k = 1301..8300 step 13, 8300..66000 step 97 and within 4 of 2048, 4096, 4160, 4224, 8192, 12288, 16384, 32768, 49152, 65536".into(),
         ]
     }
     fn enumerate(&self, tier: Tier, sh: &mut Shard, f: &mut dyn FnMut(C14Case) -> bool) {
@@ -194,8 +231,9 @@ impl Property for C14 {
         // binary / octal / hex only (linear cost) far beyond the decimal sweep
         for t in [TID_D, TID_A] {
             let mut ks: Vec<usize> = (1301..=8300usize).step_by(13).collect();
-            for c in [2048usize, 4096, 4160, 4224, 8192] {
-                ks.extend((c - 3)..=(c + 3));
+            ks.extend((8300..=66_000usize).step_by(if t == TID_D { 97 } else { 997 }));
+            for c in [2048usize, 4096, 4160, 4224, 8192, 12288, 16384, 32768, 49152, 65536] {
+                ks.extend((c - 4)..=(c + 4));
             }
             ks.sort();
             ks.dedup();
@@ -266,6 +304,17 @@ impl Property for C14 {
             }
         }
         ensure!(got.len() == exp_big.len(), "harness", "matrix size mismatch");
+        // a writer that fails part-way must see what std's integer formatting would have sent it,
+        // and must not disturb the next formatting call
+        if n <= 400 {
+            let digits = a.bits.significant().max(1);
+            let g = match catch(|| z_match!(&za, v => failing_sinks(v, digits))) {
+                Ok(g) => g,
+                Err(p) => fail!(format!("{}/failing-writer-panic", what), "formatting {} into a writer that runs out of room panicked: {}", a.describe(), p),
+            };
+            let e = failing_sinks(&big, digits);
+            ensure!(g == e, format!("{}/failing-writer", what), "{}: formatting into a bounded writer and then formatting again gives {:?}, the integer gives {:?}", a.describe(), g, e);
+        }
         // metamorphic: the strings depend on the value only
         if !st.light {
             let base = z_match!(&za, v => small(v));
